@@ -12,7 +12,9 @@ Record case11 := mkCase11 { k_fs : fsys; k_lim : limits; k_steps : list lstep; k
 
 Definition obs_eqb (a b : obs) : bool :=
   Bool.eqb (ob_nil a) (ob_nil b) && listN_eqb (ob_order a) (ob_order b) &&
-  listN_eqb (pairs_code (ob_files a)) (pairs_code (ob_files b)) && errs_same_list (ob_errs a) (ob_errs b).
+  listN_eqb (pairs_code (ob_files a)) (pairs_code (ob_files b)) && errs_same_list (ob_errs a) (ob_errs b) &&
+  (* the syntax errors reported for the loaded files, in order *)
+  listN_eqb (map (fun kv => fst kv * 1000000 + snd kv) (ob_perrs a)) (map (fun kv => fst kv * 1000000 + snd kv) (ob_perrs b)).
 
 Definition fresh_of (s : lsys) (L : limits) (op : lop) : option lout :=
   match op with
